@@ -36,13 +36,15 @@ deriving Repr, DecidableEq
 def binary2dShape (N oc lr rr : Nat) : Nat × Nat :=
   (if rr = 1 then lr else rr, oc / N + oc % N)
 
-/-- one operand of `binary_2d_simd`: (`is_scalar_*`, `is_broadcast_*`, else packed) -/
+/-- one operand of `binary_2d_simd`: (`is_scalar_*`, `is_broadcast_*`, else packed).
+    A one-column operand is indexed by the row, or by 0 when it has a single row (the `(1,1)` operand). -/
 def binary2dOperand (N sr sc oc : Nat) (isScalarRes : Bool) (rows cols : Nat) : TIdx :=
   let isScalar := isScalarRes && decide (sc ≥ cols / N)
   if isScalar then
     let nPacked := cols / N
-    ⟨Tag.SCALAR, if cols = 1 then sr else nPacked * N + (sc - nPacked) + sr * oc * (if rows > 1 then 1 else 0)⟩
-  else if cols = 1 then ⟨Tag.BROADCAST, sr⟩
+    ⟨Tag.SCALAR, if cols = 1 then (if rows > 1 then sr else 0)
+                 else nPacked * N + (sc - nPacked) + sr * oc * (if rows > 1 then 1 else 0)⟩
+  else if cols = 1 then ⟨Tag.BROADCAST, if rows > 1 then sr else 0⟩
   else ⟨Tag.PACKED, sc * N + sr * oc * (if rows > 1 then 1 else 0)⟩
 
 /-- `binary_2d_simd(N, {simd_row, simd_col}, …)` → (out, lhs, rhs) -/
